@@ -402,6 +402,40 @@ Definition haplotagphase (rl : rule) (pr : params) (ref : list Z) (t : table) (r
   | Err e => Err e
   end.
 
+(* --------------------------------------------------------- records the reader and the writer skip *)
+(* VcfReader._process_single_chromosome leaves out records without ALT, multi-ALT records under
+   --no-mav, and a record whose position equals that of the previously accepted record.  The writer
+   applies _remove_existing_phasing to every record first and then skips the same records (a duplicate
+   position is either skipped by `pos == prev_pos` or finds no phase of its own).  l = (position, number
+   of ALT alleles) per record. *)
+Fixpoint skip_flags (mav : bool) (prev : option Z) (l : list (Z * Z)) : list bool :=
+  match l with
+  | [] => []
+  | (p, n) :: t =>
+      if (n =? 0) || ((1 <? n) && negb mav) then true :: skip_flags mav prev t
+      else if oz_eqb prev (Some p) then true :: skip_flags mav prev t
+      else false :: skip_flags mav (Some p) t
+  end.
+Definition strip_record (r : vrec) : vrec :=
+  mkRec (v_pos r) (v_snv r) (v_pskey r) (map remove_phasing (v_calls r)).
+Fixpoint merge_skipped (fl : list bool) (recs out : table) : table :=
+  match fl, recs with
+  | true :: fl', r :: recs' => strip_record r :: merge_skipped fl' recs' out
+  | false :: fl', _ :: recs' =>
+      match out with o :: out' => o :: merge_skipped fl' recs' out' | [] => [] end
+  | _, _ => []
+  end.
+Definition core_records (fl : list bool) (recs : table) : table :=
+  map snd (filter (fun x => negb (fst x)) (combine fl recs)).
+(* one chromosome of a file: recs = all records, nalts = their ALT counts *)
+Definition haplotagphase_file (rl : rule) (pr : params) (ref : list Z) (mav : bool)
+           (recs : table) (nalts : list Z) (readss : list (list read)) : res table :=
+  let fl := skip_flags mav None (combine (map v_pos recs) nalts) in
+  match haplotagphase rl pr ref (core_records fl recs) readss with
+  | Ok out => Ok (merge_skipped fl recs out)
+  | Err e => Err e
+  end.
+
 (* ------------------------------------------------- haplotag: the tags one read receives (diploid) *)
 (* variantpos_to_phaseinfo of get_variant_information: phased, heterozygous, block id present *)
 Definition phi_of (ivs : list ivar) (p : Z) : option (Z * Z * Z) :=
@@ -479,6 +513,19 @@ Definition prephased_kept (inp out : list call) : bool :=
   (length inp =? length out)%nat &&
   forallb (fun io => if c_phased (fst io) then call_eqb (fst io) (snd io) else true) (combine inp out).
 
+(* classes of calls written with `|` in the input: 0 = what VcfReader recognises as phased with a phase
+   set id (heterozygous, diploid, fully called, PS key and value present, record not skipped);
+   1 = heterozygous diploid phased call without a PS value; 2 = every other call written with `|`
+   (homozygous, on a skipped record, ...) *)
+Definition het_pair (g : list (option Z)) : bool :=
+  match g with [Some a; Some b] => negb (a =? b) | _ => false end.
+Definition prephased_class (skip pskey : bool) (c : call) : Z :=
+  if negb skip && het_pair (c_gt c) then (if pskey && is_some (c_ps c) then 0 else 1) else 2.
+(* rows: (record skipped, PS key, input call, output call) *)
+Definition prephased_kept_class (cls : Z) (rows : list (bool * bool * call * call)) : bool :=
+  forallb (fun x => let '(skip, pskey, ci, co) := x in
+                    if c_phased ci && (prephased_class skip pskey ci =? cls) then call_eqb ci co else true) rows.
+
 (* property clause 1, per record of one sample: (original call, input call, output call, PS tags of the
    tagged reads that cover the record).  Every variant that haplotagphase phases (output phased, input
    not) has the order of the original phased VCF (where that had a phase) and a phase set carried by
@@ -550,16 +597,23 @@ Record hcase := mkCase {
   k_votes : list votes;               (* per sample: what compute_votes returned *)
   k_cst : list cstate;                (* per sample: what consensus returned *)
   k_cover : list (list (list Z));     (* per sample, per record: PS tags of tagged alignments spanning it *)
-  k_rsets : list (list Z)             (* per alignment: PS of the original phased calls it spans *)
+  k_rsets : list (list Z);            (* per alignment: PS of the original phased calls it spans *)
+  k_mav : bool;                       (* false = --no-mav *)
+  k_nalts : list Z                    (* per record: number of ALT alleles *)
 }.
 Definition sample_calls (t : table) (s : nat) : list call := map (fun r => nth s (v_calls r) dcall) t.
 Definition same_positions (a b : table) : bool := list_eqb (map v_pos a) (map v_pos b).
 Definition k_samples (k : hcase) : list nat := seq 0 (length (k_reads k)).
+Definition k_flags (k : hcase) : list bool := skip_flags (k_mav k) None (combine (map v_pos (k_inp k)) (k_nalts k)).
+Definition k_core (k : hcase) : table := core_records (k_flags k) (k_inp k).
 Definition k_rows (k : hcase) (s : nat) : list (call * call * call * list Z) :=
   combine (combine (combine (sample_calls (k_orig k) s) (sample_calls (k_inp k) s)) (sample_calls (k_out k) s))
           (nth s (k_cover k) []).
+Definition k_prows (k : hcase) (s : nat) : list (bool * bool * call * call) :=
+  combine (combine (combine (k_flags k) (map v_pskey (k_inp k))) (sample_calls (k_inp k) s)) (sample_calls (k_out k) s).
 Definition k_aligned (k : hcase) : bool :=
   same_positions (k_orig k) (k_inp k) && same_positions (k_inp k) (k_out k) &&
+  (length (k_nalts k) =? length (k_inp k))%nat &&
   forallb (fun s => (length (nth s (k_cover k) []) =? length (k_inp k))%nat) (k_samples k).
 
 Definition l1_proviso (k : hcase) : bool := forallb one_set (k_rsets k).
@@ -567,22 +621,25 @@ Definition l1_order (k : hcase) : bool :=
   k_aligned k && (negb (l1_proviso k) || forallb (fun s => forallb order_one (k_rows k s)) (k_samples k)).
 Definition l1_ps (k : hcase) : bool :=
   k_aligned k && (negb (l1_proviso k) || forallb (fun s => forallb ps_one (k_rows k s)) (k_samples k)).
+(* clause 2, split by the class of the pre-phased call *)
+Definition l1_prephased_class (cls : Z) (k : hcase) : bool :=
+  k_aligned k && forallb (fun s => prephased_kept_class cls (k_prows k s)) (k_samples k).
 Definition l1_prephased (k : hcase) : bool :=
   k_aligned k &&
   forallb (fun s => prephased_kept (sample_calls (k_inp k) s) (sample_calls (k_out k) s)) (k_samples k).
 
 Definition l2_run (rl : rule) (k : hcase) : bool :=
-  res_table_eqb (haplotagphase rl (k_params k) (k_ref k) (k_inp k) (k_reads k)) (k_out k).
+  res_table_eqb (haplotagphase_file rl (k_params k) (k_ref k) (k_mav k) (k_inp k) (k_nalts k) (k_reads k)) (k_out k).
 Definition l2_votes (k : hcase) : bool :=
   (length (k_votes k) =? length (k_reads k))%nat &&
-  forallb (fun s => match compute_votes (sample_view (k_inp k) s) (nth s (k_reads k) []) with
+  forallb (fun s => match compute_votes (sample_view (k_core k) s) (nth s (k_reads k) []) with
                     | Ok V => votes_eqb V (nth s (k_votes k) [])
                     | Err _ => false
                     end) (k_samples k).
 (* consensus on the implementation's own votes *)
 Definition l2_cons (rl : rule) (k : hcase) : bool :=
   (length (k_cst k) =? length (k_reads k))%nat &&
-  forallb (fun s => match consensus rl (k_params k) (k_ref k) (sample_view (k_inp k) s) (nth s (k_votes k) []) with
+  forallb (fun s => match consensus rl (k_params k) (k_ref k) (sample_view (k_core k) s) (nth s (k_votes k) []) with
                     | Ok st => cstate_eqb st (nth s (k_cst k) ([], []))
                     | Err _ => false
                     end) (k_samples k).
